@@ -346,7 +346,7 @@ def run(plan, tier="quick") -> RunResult:
     model = Model(backend, plan["suffix"])
     idclass = plan["idclass"]
     replay = plan
-    res.config = "fault-free"
+    res.config = "with-restart" if any(o["op"] == "restart" for o in plan["ops"]) else "single-session"
     nontrivial = False
     try:
         import cogent3.app.sqlite_data_store  # noqa: F401  (module must exist before the shim)
